@@ -536,7 +536,7 @@ class Chopper:
         tpulse = 1.0 / pulse_frequency
         topen = disk_chopper.time_offset_open(pulse_frequency=pulse_frequency)
         tclose = disk_chopper.time_offset_close(pulse_frequency=pulse_frequency)
-        offsets = sc.arange('pulse', npulses) * tpulse
+        offsets = (sc.arange('pulse', npulses) * tpulse).to(unit=topen.unit)
         return cls(
             distance=sc.norm(disk_chopper.axle_position),
             time_open=(offsets + topen).flatten(to=topen.dim),
